@@ -1124,8 +1124,19 @@ def layout(tokens, rng, mode="random", filename="f.c", directives=True):
         if kind == "pragma":
             if col != 1:
                 emit("\n")
-            pos.append((cur_file, line, col))
-            emit(sp + "\n")
+            if mode == "random" and sp.startswith("#pragma"):
+                # blanks and tabs between `#`, `pragma` and the text are layout too
+                body = sp[len("#pragma"):].lstrip(" ")
+                lead = rng.choice(["", "", " ", "\t"])
+                mid = rng.choice(["", "", " ", "\t", "  "])
+                gap = rng.choice([" ", " ", "\t", "  ", " \t", "\t "]) if body else rng.choice(["", " ", "\t"])
+                emit(lead)
+                # (file, line, column of '#', column of the word pragma, column of the text)
+                pos.append((cur_file, line, col, col + 1 + len(mid), col + 1 + len(mid) + 6 + len(gap)))
+                emit("#" + mid + "pragma" + gap + body + "\n")
+            else:
+                pos.append((cur_file, line, col))
+                emit(sp + "\n")
             prev = None
             continue
         if prev is not None:
